@@ -11,6 +11,8 @@ import MinizProof.Spec.Inflate
 import MinizProof.Lemmas.Finite
 import MinizProof.Lemmas.GenArith
 import MinizProof.Lemmas.CoreZlib
+import MinizProof.Lemmas.EncZlib
+import MinizProof.Props.C10
 set_option maxRecDepth 1000000
 open Fin'
 
@@ -136,5 +138,35 @@ theorem zlib_trailer_is_verified (r : Regs) (inp out : Array UInt8) (outPos budg
   let h := refine_zlib_flat r inp out outPos budget flags maxDist res cmf flg a b c d hstart hshape hflat hz hstop
     hpos h0 h1 hv hspec ha hb hc hd hroom
   ⟨h.1, h.2.1, h.2.2.1⟩
+
+/-! ### The framing as an encoder specification (see Props/C10 for the DEFLATE body) -/
+open Model.Core Spec in
+/-- THE REFERENCE ZLIB DECODER INVERTS THE FRAMING: header bytes CMF, FLG (any RFC-valid pair), then any
+    well-formed sequence of static / dynamic / stored blocks from bit 16, zero padding to the byte
+    boundary, then the Adler-32 of the blocks' expansion most significant byte first — every byte
+    string holding these bits is accepted by `Spec.zlibSpec` with the checksum verified, its plaintext
+    is the expansion, and exactly header + body + trailer bytes are used (whatever follows). -/
+theorem zlib_encoding_round_trip (cmf flg : Nat) (hc : cmf < 256) (hf : flg < 256) (hv : zlibHeaderValid cmf flg = true)
+    (maxDist : Nat) (data : Array UInt8) (bs : List EncBlock) (hok : C10.StreamOk maxDist #[] bs)
+    (h : HasBits data 0 (zlibBits cmf flg bs)) :
+    ∃ zr, zlibSpec #[] maxDist data true = .accept zr ∧ zr.inner.out = expandBlocks #[] #[] bs ∧
+      zr.bytesUsed = (16 + (blocksBits 16 bs).length + 7) / 8 + 4 :=
+  zlibSpec_enc cmf flg hc hf hv maxDist data bs (hok.blocksOk maxDist bs #[]) h
+
+open Model.Core Spec in
+/-- … in particular with the header the COMPRESSOR writes (`header_from_level`, regenerated from the
+    source) for every level field 0..3 and every window_bits 0..15. -/
+theorem emitted_header_with_a_conforming_body_is_accepted (level wb : Nat) (hl : level < 4) (hw : wb < 16)
+    (maxDist : Nat) (data : Array UInt8) (bs : List EncBlock) (hok : C10.StreamOk maxDist #[] bs)
+    (h : HasBits data 0 (zlibBits (G.idx (header_from_level (Int.ofNat level) (Int.ofNat wb)) 0).toNat
+      (G.idx (header_from_level (Int.ofNat level) (Int.ofNat wb)) 1).toNat bs)) :
+    ∃ zr, zlibSpec #[] maxDist data true = .accept zr ∧ zr.inner.out = expandBlocks #[] #[] bs := by
+  have hb : allBelow 4 (fun l => allBelow 16 (fun w =>
+      decide ((G.idx (header_from_level (Int.ofNat l) (Int.ofNat w)) 0).toNat < 256) &&
+      decide ((G.idx (header_from_level (Int.ofNat l) (Int.ofNat w)) 1).toNat < 256))) = true := by decide +kernel
+  have hlt := allBelow_spec (allBelow_spec hb level hl) wb hw
+  simp only [Bool.and_eq_true, decide_eq_true_eq] at hlt
+  obtain ⟨zr, h1, h2, _⟩ := zlib_encoding_round_trip _ _ hlt.1 hlt.2 (header_valid level wb hl hw).1 maxDist data bs hok h
+  exact ⟨zr, h1, h2⟩
 
 end C09
